@@ -128,6 +128,9 @@ func ParseContractFile(path, pkgPath string) (*ContractFile, error) {
 	for sc.Scan() {
 		ln++
 		s := strings.TrimSpace(sc.Text())
+		if strings.HasPrefix(s, "// @") { // gofmt rewrites //@ in doc comments
+			s = "//@" + s[4:]
+		}
 		if !strings.HasPrefix(s, "//@") {
 			continue
 		}
@@ -384,7 +387,7 @@ func findContractFiles(repo, mirror string) (map[string]string, map[string]bool,
 			}
 			rel, _ := filepath.Rel(root, p)
 			if isMirror {
-				if _, ok := res[rel]; ok {
+				if _, ok := res[rel]; ok && os.Getenv("GOVC_PREFER_MIRROR") == "" {
 					return nil
 				}
 				fromMirror[rel] = true
